@@ -58,8 +58,20 @@ func (t *WebsocketTransport) Connect() (string, error) {
 	}
 
 	t.secure = false
+	httpClient := &http.Client{CheckRedirect: noDowngradeRedirect}
+	if t.Config.TLSConfig != nil {
+		// The TLS configuration of the application (its roots, its verification callbacks, ...) applies to the
+		// handshake of a wss:// address as it does to STARTTLS on the TCP transport.
+		httpTransport := &http.Transport{Proxy: http.ProxyFromEnvironment}
+		if def, ok := http.DefaultTransport.(*http.Transport); ok {
+			httpTransport = def.Clone()
+		}
+		httpTransport.TLSClientConfig = t.Config.TLSConfig.Clone()
+		defer httpTransport.CloseIdleConnections()
+		httpClient.Transport = httpTransport
+	}
 	wsConn, response, err := websocket.Dial(ctx, t.Config.Address, &websocket.DialOptions{
-		HTTPClient:   &http.Client{CheckRedirect: noDowngradeRedirect},
+		HTTPClient:   httpClient,
 		Subprotocols: []string{"xmpp"},
 	})
 
